@@ -191,6 +191,10 @@ func runC05(c *core.Case) {
 		return
 	}
 	r := c.R
+	if hammerWanted(c, c05Exhaustive()) {
+		c05Hammer(c, c05Exhaustive())
+		return
+	}
 	square := r.P(0.45)
 	var a ref.ID
 	if square {
@@ -635,6 +639,7 @@ func c05VeryLong(c *core.Case) {
 		}
 	}
 	c.Tag("very-long-list")
+	c.Procs()
 	c.NonTrivial()
 	c.KI(int64(n), int64(pos), z)
 	c.KS(short[0].Ext())
